@@ -547,7 +547,44 @@ def _closure_value(world: World, val, depth: int = 0) -> Optional[V]:
         items = [_closure_value(world, x, depth + 1) for x in val]
         if all(i is not None for i in items):
             return VTuple(items) if isinstance(val, tuple) else VList(items)
+    if isinstance(val, dict) and depth < 4 and all(isinstance(k, str) for k in val):
+        from pyvc.symex import VConstDict
+
+        vals = [_closure_value(world, x, depth + 1) for x in val.values()]
+        if all(i is not None for i in vals):
+            return VConstDict(list(zip(val.keys(), vals)))
     return None
+
+
+def closure_of(world: World, sources: "HookSources", fn, depth: int = 0) -> Dict[str, V]:
+    """Symbolic closure of a live hook function: what its cells hold NOW (late binding included) is what the call will see.  Cells that
+    hold another function of _hooks.py (a sibling helper defined in the same registration function) become inlined functions with their
+    own closures."""
+    from pyvc.symex import VFunc
+
+    closure: Dict[str, V] = {"converter": VOpaque("converter")}
+    try:
+        cells = list(zip(fn.__code__.co_freevars, fn.__closure__ or ()))
+    except AttributeError:
+        return closure
+    for name, cell in cells:
+        if name in closure:
+            continue
+        try:
+            val = cell.cell_contents
+        except ValueError:
+            continue
+        cv = _closure_value(world, val)
+        if cv is None and inspect.isfunction(val) and depth < 4 and os.path.realpath(val.__code__.co_filename) == os.path.realpath(sources.path):
+            node = sources.node_for(val)
+            if node is not None:
+                q = f"{HOOKS_REL}::closure::{val.__qualname__}@{val.__code__.co_firstlineno}"
+                if q not in world.functions:
+                    world.functions[q] = FunctionInfo(q, node, None, HOOKS_REL, "hooks", closure=closure_of(world, sources, val, depth + 1), inline=True)
+                cv = VFunc(q)
+        if cv is not None:
+            closure[name] = cv
+    return closure
 
 
 def describe_reading(r) -> str:
@@ -584,22 +621,7 @@ def verify_site(live, mm: MetaModel, world: World, sources: HookSources, decl_by
             res.unsupported = "source node of the handler not found"
             return res
         res.source = f"{HOOKS_REL}:{node.lineno}"
-        closure: Dict[str, V] = {"converter": VOpaque("converter")}
-        # free variables of the live function object: what the cells hold NOW (late binding included) is what the call will see
-        try:
-            fn = site.handler
-            for name, cell in zip(fn.__code__.co_freevars, fn.__closure__ or ()):
-                if name in closure:
-                    continue
-                try:
-                    val = cell.cell_contents
-                except ValueError:
-                    continue
-                cv = _closure_value(world, val)
-                if cv is not None:
-                    closure[name] = cv
-        except AttributeError:
-            pass
+        closure = closure_of(world, sources, site.handler)
         fi = FunctionInfo(f"{HOOKS_REL}::{site.handler_name}", node, None, HOOKS_REL, "hooks", closure=closure, inline=True)
     elif site.handler_kind == "default_dis":
         src, info = default_dis_source(site)
